@@ -188,10 +188,10 @@ PROPS = {
     },
     "C02": {"module": "StrettoModel.Props.C02", "jobs": [acache_job(r"\.(store|ret|callbacks|buffer|clear)$", extra=["--collisions", "1"]), cache_job(r"\.(store|ret|callbacks|buffer|clear)$", extra=["--collisions", "1", "--w-clear", "5"])],
             "branches": ["get.hit", "get.miss", "get.conflict_miss", "getmut.hit", "insert.update", "insert.new_over_resident", "remove.resident", "p.clear.buf1", "delete.other_conflict"],
-            "oracles": [{"name": "flavour-differential", "run": flavour_oracle_for("C02")}, {"name": "live-remove-full", "run": live_oracle("C02", ["remove_full", "async_remove_full", "invariants", "async_invariants", "async_clear_ack"])}],
+            "oracles": [{"name": "flavour-differential", "run": flavour_oracle_for("C02")}, {"name": "live-remove-full", "run": live_oracle("C02", ["remove_full", "async_remove_full", "invariants", "async_invariants", "async_clear_ack", "transparent_keys"])}],
             "assumptions": CACHE_ASSUME + ["values are opaque ids: the model carries a value id where the code carries a V; that the code hands back the V it stored under that id (no aliasing inside a shard's HashMap) is std's contract and is sampled by the correspondence (every returned value is compared)",
                                            "concurrent lookups during an in-place update are serialised by the shard lock; that atomicity (never a mixture of two values) is the RwLock's contract, not a theorem here"]},
-    "C04": {"module": "StrettoModel.Props.C04", "oracles": [{"name": "flavour-differential", "run": flavour_oracle_for("C04")}, {"name": "live-clear-ack", "run": live_oracle("C04", ["async_clear_ack"])}],
+    "C04": {"module": "StrettoModel.Props.C04", "oracles": [{"name": "flavour-differential", "run": flavour_oracle_for("C04")}, {"name": "live-clear-ack", "run": live_oracle("C04", ["async_clear_ack", "transparent_keys"])}],
             "jobs": [acache_job(r"\.(store|expiry|policy|ret|callbacks|buffer|len)$", extra=["--w-ttl", "60"]), cache_job(r"\.(store|expiry|policy|ret|callbacks|buffer|len)$", extra=["--w-ttl", "50"])],
             "branches": ["padd.room", "padd.evicting", "padd.rejected", "insert.update", "insert.dropped", "remove.resident", "tick.reclaimed", "tick.idle"],
             "assumptions": CACHE_ASSUME + ["refines_ttl_map composes the per-operation squares over sequential histories (each operation taken to quiescence); for histories with several client calls in flight the composition is carried by the run-time no-loss monitor, which tracks capacity pressure (latest asked cost per charged key at quiescence, per-key peak while writes are in flight) and collisions from the implementation's own history",
@@ -212,7 +212,7 @@ PROPS = {
                                            "the run theorems assume C06's guards on oracle inputs (VictimsOk, TickOk), checked at run time by the driver on the implementation's observations",
                                            "the callback log of the model is the sequence of CacheCallback calls the recording callback of the harness saw; it is compared step by step"]},
     "C10": {"module": "StrettoModel.Props.C10", "jobs": [acache_job(r"\.(buffer|ret|wait|clear|close|closed)$"), cache_job(r"\.(buffer|ret|wait|clear|close|closed)$", extra=["--w-wait", "10", "--w-close", "3", "--w-clear", "5"])],
-            "oracles": [{"name": "flavour-differential", "run": flavour_oracle_for("C10")}, {"name": "live-barrier", "run": live_oracle("C10", ["barrier", "protocol_storm", "async_barrier", "async_protocol_storm", "remove_full", "async_remove_full", "async_clear_ack"])}], "assumptions": CACHE_ASSUME},
+            "oracles": [{"name": "flavour-differential", "run": flavour_oracle_for("C10")}, {"name": "live-barrier", "run": live_oracle("C10", ["barrier", "protocol_storm", "async_barrier", "async_protocol_storm", "remove_full", "async_remove_full", "async_clear_ack", "reentrant_callbacks"])}], "assumptions": CACHE_ASSUME},
     "C15": {"module": "StrettoModel.Props.C15", "oracles": [{"name": "live-ring", "run": live_oracle("C15", ["async_ring_accounting", "policy_busy_lookups"])}, {"name": "flavour-differential", "run": flavour_oracle_for("C15")}],
             "jobs": [acache_job(r"\.(ring|metrics|ret|batch)$"), cache_job(r"\.(ring|metrics|ret|batch)$"),
                      {"name": "tinylfu", "driver": "tiny", "fields": r"^tiny\.",
@@ -239,23 +239,24 @@ PROPS = {
             "jobs": [acache_job(r"\.(store|ret|callbacks)$", extra=["--collisions", "1"]), cache_job(r"\.(store|ret|callbacks)$", extra=["--collisions", "1"], quick_lives=14),
                      {"name": "keys", "driver": "keys", "gen": lambda tier, seed: ["keys", "--seed", str(seed), "--ops", "300" if tier == "quick" else "5000"],
                       "seeds": {"quick": 1, "thorough": 4}}],
+            "oracles": [{"name": "live-keys", "run": live_oracle("C18", ["transparent_keys"])}],
             "branches": ["key.i8.neg", "key.i16.neg", "key.i64.neg", "key.u64.nonneg", "keystr", "delete.other_conflict", "get.conflict_miss", "iip.vetoed_or_conflict"],
             "assumptions": CACHE_ASSUME + ["seahash/xxh64 and std's Hash for String/&str are not modelled: determinism and String/&str agreement are sampled by the harness"]},
     "C20": {"module": "StrettoModel.Props.C20",
             "jobs": [acache_job(r".*"), cache_job(r".*", name="config-sweep", extra=["--sweep", "1"], quick_ops=60, quick_lives=70, thorough_ops=150, thorough_lives=140, seeds={"quick": 1, "thorough": 8}),
                      cache_job(r".*", quick_lives=10)],
             "branches": ["finalize.ok", "finalize.InvalidNumCounters", "finalize.InvalidMaxCost", "finalize.InvalidBufferSize", "padd.evicting", "tick.reclaimed", "ring.flush.kept"],
-            "oracles": [{"name": "live-completion", "run": live_oracle("C20", ["ttl_mix", "protocol_storm", "tiny_cleanup_interval", "ring_contention"])}], "assumptions": CACHE_ASSUME},
+            "oracles": [{"name": "live-completion", "run": live_oracle("C20", ["ttl_mix", "protocol_storm", "tiny_cleanup_interval", "ring_contention", "reentrant_callbacks"])}], "assumptions": CACHE_ASSUME},
     "C09": {
         "module": "StrettoModel.Props.C09",
-        "oracles": [{"name": "flavour-differential", "run": flavour_oracle_for("C09")}, {"name": "live-validator-race", "run": live_oracle("C09", ["validator_race"])}],
+        "oracles": [{"name": "flavour-differential", "run": flavour_oracle_for("C09")}, {"name": "live-validator-race", "run": live_oracle("C09", ["validator_race", "iip_race"])}],
             "jobs": [acache_job(r"\.(store|expiry|ret|callbacks|buffer)$", extra=["--w-ttl", "60"]), cache_job(r"\.(store|expiry|ret|callbacks|buffer)$", extra=["--w-ttl", "50"])],
         "branches": ["iip.absent", "iip.expired", "iip.update", "iip.vetoed_or_conflict", "insert.update", "insert.new_over_resident"],
         "assumptions": CACHE_ASSUME + ["validators are table-driven (always, never, new>old, same parity); the theorems quantify over every predicate"],
     },
     "C11": {
         "module": "StrettoModel.Props.C11",
-        "oracles": [{"name": "live-clear-burst", "run": live_oracle("C11", ["clear_burst", "async_clear_burst", "clear_held_ref", "async_clear_ack", "double_clear"])}, {"name": "flavour-differential", "run": flavour_oracle_for("C11")}],
+        "oracles": [{"name": "live-clear-burst", "run": live_oracle("C11", ["clear_burst", "async_clear_burst", "clear_held_ref", "async_clear_ack", "double_clear", "iip_race"])}, {"name": "flavour-differential", "run": flavour_oracle_for("C11")}],
             "jobs": [acache_job(r"\.(store|expiry|policy|buffer|metrics|ret|callbacks|len|clear)$"), cache_job(r"\.(store|expiry|policy|buffer|metrics|ret|callbacks|len|clear)$", extra=["--w-clear", "8", "--w-ttl", "40"])],
         "branches": ["clear.blocked.buf0", "clear.blocked.buf1", "clear.blocked.buf2", "p.clear.buf0", "p.clear.buf1", "p.clear.buf2", "ret.clear"],
         "assumptions": CACHE_ASSUME,
@@ -263,7 +264,7 @@ PROPS = {
     "C12": {
         "module": "StrettoModel.Props.C12",
         "jobs": [acache_job(r"\.(closed|ret|buffer|store|policy|close|wait|clear)$"), cache_job(r"\.(closed|ret|buffer|store|policy|close|wait|clear)$", extra=["--w-close", "4", "--w-wait", "5"], quick_lives=30)],
-        "oracles": [{"name": "flavour-differential", "run": flavour_oracle_for("C12")}, {"name": "live-close", "run": live_oracle("C12", ["close_race", "workers_exit", "protocol_storm", "async_protocol_storm"])}],
+        "oracles": [{"name": "flavour-differential", "run": flavour_oracle_for("C12")}, {"name": "live-close", "run": live_oracle("C12", ["close_race", "workers_exit", "protocol_storm", "async_protocol_storm", "reentrant_callbacks"])}],
         "branches": ["close.blocked", "close.ok", "p.stop", "w.stop", "ret.close", "insert.closed", "get.closed", "remove.closed", "wait.ok", "clear.ok.buf0"],
         "assumptions": CACHE_ASSUME + ["that the OS threads of the workers are gone after close()/drop is observed by the live-mode job, not proved"],
     },
